@@ -261,3 +261,75 @@ def matches_in(n, sty_contains=None):
         if x.get('k') == 'match' and (sty_contains is None or sty_contains in (x.get('sty') or '')):
             out.append(x)
     return out
+
+
+# ---- constant evaluation ------------------------------------------------------
+def const_eval(n):
+    """Evaluate a constant initialiser expression to plain Python data:
+    literals -> value; tuples -> tuple; arrays -> list; unit variants / consts ->
+    ('path', def); Ctor(args) -> ('ctor', def, [args]); struct literal ->
+    ('struct', def, {field: value}); method/assoc calls -> ('call', name, [args])."""
+    n = peel(n)
+    if not isinstance(n, dict):
+        return None
+    k = n.get('k')
+    if k == 'lit':
+        return n.get('v')
+    if k == 'tup':
+        return tuple(const_eval(x) for x in n['a'])
+    if k == 'array':
+        return [const_eval(x) for x in n['a']]
+    if k == 'path':
+        return ('path', n.get('def'))
+    if k == 'local':
+        return ('local', n.get('name'))
+    if k == 'call':
+        if n.get('ctor'):
+            return ('ctor', n['ctor'].get('def'), [const_eval(x) for x in n['a']])
+        return ('call', n.get('def') or n.get('decl'), [const_eval(x) for x in n['a']])
+    if k == 'mcall':
+        return ('call', n.get('def') or n.get('decl'), [const_eval(n['recv'])] + [const_eval(x) for x in n['a']])
+    if k == 'struct':
+        return ('struct', n['p'].get('def'), {f[0]: const_eval(f[1]) for f in n['fields']})
+    if k == 'unary' and n.get('op') == '-':
+        v = const_eval(n['a'])
+        return -v if isinstance(v, int) else ('neg', v)
+    if k == 'cast':
+        return const_eval(n['a'])
+    if k == 'block':
+        return const_eval(n.get('e')) if n.get('e') else None
+    if k == 'binary':
+        return ('binary', n.get('op'), const_eval(n['a']), const_eval(n['b']))
+    if k == 'constblock':
+        return const_eval(n['body'])
+    return ('expr', k)
+
+
+def short(defpath):
+    return defpath.split('::')[-1] if isinstance(defpath, str) else defpath
+
+
+def enum_variants(F, adt_path):
+    a = F.adt(adt_path)
+    return ['%s::%s' % (adt_path, v['name']) for v in a['variants']]
+
+
+def fn_match_table(F, fn, adt_path, scrut_name=None):
+    """The total function computed by the (single) top-level `match` over enum
+    `adt_path` in function fn: {variant short name: arm body node}. Fails closed
+    (raises AnchorMissing) on guards or opaque patterns."""
+    from facts import AnchorMissing
+    h = F.hir_of(fn)
+    ms = [m for m in matches_in(h['body']) if (m.get('sty') or '').lstrip('&').strip() == adt_path]
+    if scrut_name is not None:
+        ms = [m for m in ms if peel(m['scrut']).get('name') == scrut_name]
+    if len(ms) != 1:
+        raise AnchorMissing('%s: expected one match over %s, found %d' % (fn, adt_path, len(ms)))
+    m = ms[0]
+    out = {}
+    for v in enum_variants(F, adt_path):
+        i, arm = first_matching_arm(m, ('variant', v, None))
+        if i is None:
+            raise AnchorMissing('%s: match over %s not decidable for %s (%s)' % (fn, adt_path, v, arm))
+        out[short(v)] = (i, arm['body'])
+    return out, m
